@@ -1,5 +1,7 @@
 import FranzVerif.Model.Idem
 import FranzVerif.Proof.Idem
+import FranzVerif.Proof.IdemInv
+import FranzVerif.Proof.IdemFacts
 /-! C02 — idempotent producing: acked once, in order; failed absent. Theorems over ALL accepted
 histories of the monitor `Model.Idem`; the tie is the history correspondence of `harness/cmd/sim02`.
 In every statement the history has the shape the harness produces: client and wire events, then the
@@ -12,13 +14,34 @@ offset given to the promise. -/
 theorem acked_exactly_once_at_promised_offset (h : List Ev) (s : St) (hacc : run {} (h ++ [Ev.quiesce]) = some s)
     (id : Id) (part : Nat) (off : Int) (hp : (id, true, part, off) ∈ promisesOf h) :
     ∃ o : Nat, (o : Int) = off ∧ (logOf h).filter (fun e => e.2.2 == id) = [(part, o, id)] := by
-  sorry
+  obtain ⟨s₁, h1, hchk⟩ := run_snoc hacc
+  have hi := inv_of_run h1
+  obtain ⟨_, hlogged, _⟩ := quiesce_check hi hchk
+  -- the record is in the log (checked at the quiescent mark) …
+  obtain ⟨e, he, heid⟩ := hlogged _ hp rfl
+  -- … at the place its only promise names (checked when the entry was read) …
+  have hp' := hi.logProm e he
+  have heq := prom_unique hi.promNodup hp' hp heid
+  simp only [Prod.mk.injEq, true_and] at heq
+  obtain ⟨_, hpart, hoff⟩ := heq
+  -- … and nowhere else (distinct ids in the log)
+  refine ⟨e.2.1, hoff, ?_⟩
+  have := filter_unique hi.logIds he
+  rw [heid] at this
+  rw [this]
+  obtain ⟨p, o, i⟩ := e
+  simp only at heid hpart
+  rw [heid, hpart]
 
 /-- A record whose promise reports an error is not in the log. -/
 theorem failed_absent (h : List Ev) (s : St) (hacc : run {} (h ++ [Ev.quiesce]) = some s)
     (id : Id) (part : Nat) (off : Int) (hp : (id, false, part, off) ∈ promisesOf h) :
     ∀ e ∈ logOf h, e.2.2 ≠ id := by
-  sorry
+  obtain ⟨s₁, h1, _⟩ := run_snoc hacc
+  have hi := inv_of_run h1
+  intro e he heid
+  have heq := prom_unique hi.promNodup (hi.logProm e he) hp heid
+  simp at heq
 
 /-- No record is in the log twice, no two records share an offset, and the log holds only produced records,
 each of which was promised exactly once. -/
@@ -26,7 +49,10 @@ theorem log_has_no_duplicates (h : List Ev) (s : St) (hacc : run {} (h ++ [Ev.qu
     ((logOf h).map (·.2.2)).Nodup ∧ ((logOf h).map (fun e => (e.1, e.2.1))).Nodup ∧
     (∀ e ∈ logOf h, e.2.2 ∈ calledIds h) ∧ ((promisesOf h).map (·.1)).Nodup ∧
     (∀ id ∈ calledIds h, id ∈ (promisesOf h).map (·.1)) := by
-  sorry
+  obtain ⟨s₁, h1, hchk⟩ := run_snoc hacc
+  have hi := inv_of_run h1
+  obtain ⟨hall, _, _⟩ := quiesce_check hi hchk
+  exact ⟨hi.logIds, hi.logOffs, hi.logCalled, hi.promNodup, hall⟩
 
 /-- Successful records of one partition appear in produce order: if `a`'s produce call returned before
 `b`'s began and both were acked on the same partition, `a` has the smaller offset. -/
@@ -34,6 +60,48 @@ theorem acked_in_produce_order (h : List Ev) (s : St) (hacc : run {} (h ++ [Ev.q
     (a b : Id) (part : Nat) (oa ob : Int)
     (ha : (a, true, part, oa) ∈ promisesOf h) (hb : (b, true, part, ob) ∈ promisesOf h)
     (hord : returnedBefore h a b) : oa < ob := by
-  sorry
+  obtain ⟨s₁, h1, hchk⟩ := run_snoc hacc
+  have hi := inv_of_run h1
+  obtain ⟨_, _, hordchk⟩ := quiesce_check hi hchk
+  obtain ⟨earlier, hbef, hmem⟩ := before_of_returnedBefore h1 hord
+  exact hordchk b earlier hbef a hmem part oa ob ha hb
+
+/-- The wire rule: a sequence number of one `(partition, producer id, epoch)` stream is used again only for
+a retry of the same records, or after every record of the batch that last carried it was failed.
+`wreq … ids₁` is the most recent earlier `wreq` of that stream and number (none inside `h₂`). -/
+theorem sequence_reuse_only_for_retries_or_failed_batches (h₁ h₂ h₃ : List Ev)
+    (n₁ act₁ n₂ act₂ part pid : Nat) (epoch : Int) (seq cnt₁ cnt₂ : Nat) (ids₁ ids₂ : List Id)
+    (hacc : (run {} (h₁ ++ Ev.wreq n₁ act₁ part pid epoch seq cnt₁ ids₁ :: h₂ ++
+      Ev.wreq n₂ act₂ part pid epoch seq cnt₂ ids₂ :: h₃)).isSome)
+    (hlast : ∀ n act cnt ids, Ev.wreq n act part pid epoch seq cnt ids ∉ h₂) :
+    (ids₁ = ids₂ ∧ cnt₁ = cnt₂) ∨
+    ∀ i ∈ ids₁, ∃ p o, (i, false, p, o) ∈ promisesOf (h₁ ++ Ev.wreq n₁ act₁ part pid epoch seq cnt₁ ids₁ :: h₂) := by
+  obtain ⟨s₁, h1, hchk, _⟩ := run_split hacc
+  have hi := inv_of_run h1
+  have hb := hi.batches part pid epoch seq
+  rw [lastBatch_decomp part pid epoch seq h₁ h₂ n₁ act₁ cnt₁ ids₁ hlast] at hb
+  exact wreq_check hi hb hchk
+
+/-- Non-vacuity: two partitions; the batch of record 1 is appended but its response is lost (`act = 2`,
+`delivered = false`) and it is retried with the same sequence number; record 3 (partition 1) is failed and
+absent from the log; its sequence number 0 is then reused for record 4; records 1, 2 (partition 0, in produce
+order) and 4 are in the log. -/
+example : accepts
+    [.call 1 0, .ret 1, .call 2 0, .ret 2, .call 3 1, .ret 3,
+     .wreq 1 2 0 7 0 0 1 [1], .wresp 1 0 0 0 false,
+     .wreq 2 0 0 7 0 0 1 [1], .wresp 2 0 0 0 true, .promise 1 true 0 0,
+     .wreq 3 1 1 7 0 0 1 [3], .promise 3 false 1 (-1),
+     .call 4 1, .ret 4,
+     .wreq 4 0 1 7 0 0 1 [4], .wresp 4 1 0 0 true, .promise 4 true 1 0,
+     .wreq 5 0 0 7 0 1 1 [2], .wresp 5 0 0 1 true, .promise 2 true 0 1,
+     .logEntry 0 0 1, .logEntry 0 1 2, .logEntry 1 0 4, .quiesce] = true := by decide
+
+/-- the same history with the failed record 3 in the log is rejected, and so is reusing sequence number 0
+of partition 1 for record 4 while record 3 is not failed -/
+example : accepts
+    [.call 3 1, .ret 3, .wreq 3 1 1 7 0 0 1 [3], .promise 3 false 1 (-1), .logEntry 1 0 3, .quiesce] = false := by
+  decide
+example : accepts
+    [.call 3 1, .ret 3, .call 4 1, .wreq 3 1 1 7 0 0 1 [3], .wreq 4 0 1 7 0 0 1 [4]] = false := by decide
 
 end Props.C02
